@@ -60,6 +60,9 @@ class _FFTW:
     def __call__(self, x):
         if self.direction == "FFTW_FORWARD":
             if isinstance(x, LArr):
+                m = x.materialize()
+                if m is not None:
+                    return np.fft.rfft(np.asarray(m, dtype=float), axis=1)
                 return _Spec(x)
             xx = np.asarray(arrays.demote(arrays._plain(x)) if isinstance(x, np.ndarray) else x, dtype=float)
             return np.fft.rfft(xx, axis=1)
@@ -118,7 +121,7 @@ class _Parallel:
 
     def __call__(self, jobs):
         jobs = list(jobs)
-        order = _ORDER[0] or list(range(len(jobs)))
+        order = [i for i in (_ORDER[0] or list(range(len(jobs)))) if i < len(jobs)]   # the code may clamp the worker count
         out = [None] * len(jobs)
         for i in order:
             fn, a, kw = jobs[i]
@@ -146,7 +149,10 @@ class _NPVolt:
         f = F.files.setdefault(str(file), fakefs.File(False))
         F.mutate("np.save", str(file))
         f.exists, f.size = True, 128
-        f.content = {"npy": arr, "assign": f.content.get("assign", []) if isinstance(f.content, dict) else []}
+        if isinstance(arr, SatRecorder):
+            f.content = dict(arr.f.content)
+        else:
+            f.content = {"npy": arr, "assign": f.content.get("assign", []) if isinstance(f.content, dict) else []}
 
     def frombuffer(self, buf, dtype=float, **k):
         if isinstance(buf, fakefs.RecordsBytes):
@@ -367,7 +373,7 @@ import spikeglx, scipy.signal
 import ibldsp.voltage as v
 ns, P, ns2add, reject, k_filter = {ns}, {params['nproc']}, {params['ns2add']}, {params['reject']}, {params['k_filter']}
 if ns > 400000: not_reproduced('too long to materialise')
-NB = 4096; nsites = 3; nc = nsites + 1
+NB = 4096; nsites = 96; nc = nsites + 1   # the real k-filter pads 60 mirrored traces: needs more channels than that
 d = pathlib.Path(tempfile.mkdtemp())
 rs = np.random.default_rng(0)
 data = (rs.normal(size=(ns, nc)) * 40).astype(np.int16)
@@ -375,7 +381,7 @@ data[ns // 3: ns // 3 + 50, :nsites] = 30000          # a saturated stretch
 data[:, -1] = rs.integers(0, 65535, ns).astype(np.uint16).astype(np.int16)
 txt = sglx.imec_meta_text('3B2', [(0, i % 2, i // 2) for i in range(nsites)], gains=[(500, 250)] * nsites, ns=format(ns / 30000.0, '.12f'), fs_hz='30000', file_size=ns * nc * 2)
 (d / 'x.imec0.ap.meta').write_text(txt); data.tofile(d / 'x.imec0.ap.bin')
-labels = np.array([0., 3., 0.])
+labels = np.zeros(nsites); labels[-3:] = 3; labels[5] = 1
 v.detect_bad_channels_cbin = lambda sr, **k: labels
 # run the workers in-process, sequentially (joblib replaced)
 class Par:
